@@ -49,35 +49,19 @@ def afterNl (tl : Bytes) : Bytes :=
   | [] => tl
   | _ :: rest => rest
 
-theorem length_dropWhile_le' (p : UInt8 → Bool) (l : Bytes) : (l.dropWhile p).length ≤ l.length := by
-  induction l with
-  | nil => simp
-  | cons a l ih => simp only [List.dropWhile]; split <;> simp <;> omega
-
-theorem afterNl_length_le (tl : Bytes) : (afterNl tl).length ≤ tl.length := by
-  unfold afterNl
-  have := length_dropWhile_le' (fun b => b != 10) tl
-  split
-  · omega
-  · rename_i h; rw [h] at this; simp at this; omega
-
-/-- the comment loop of `next_word`; the argument starts with a non-white-space byte -/
-def skipComments (r : Bytes) : Out Bytes :=
-  match r with
-  | [] => .ok []
-  | b :: tl =>
+/-- the comment loop of `next_word`; the argument starts with a non-white-space byte. Every round
+    consumes the `%`, so `fuel = length` rounds suffice (`skipComments_ne_oof`). -/
+def skipCommentsF : Nat → Bytes → Out Bytes
+  | _, [] => .ok []
+  | 0, b :: tl => if b = 37 then .oof else .ok (b :: tl)
+  | fuel + 1, b :: tl =>
     if b = 37 then
-      match h : (afterNl tl).dropWhile isWs with
+      match (afterNl tl).dropWhile isWs with
       | [] => .err
-      | c :: r' => skipComments (c :: r')
+      | c :: r' => skipCommentsF fuel (c :: r')
     else .ok (b :: tl)
-termination_by r.length
-decreasing_by
-  have h1 := length_dropWhile_le' isWs (afterNl tl)
-  have h2 := afterNl_length_le tl
-  rw [h] at h1
-  simp at h1 ⊢
-  omega
+
+def skipComments (r : Bytes) : Out Bytes := skipCommentsF r.length r
 
 /-- `Lexer::next_word` on the suffix at the cursor: the lexeme and the suffix behind it. -/
 def nextWord (r : Bytes) : Out (Bytes × Bytes) :=
